@@ -189,11 +189,20 @@ def worker(args):
     dfn = ["absent", "empty", "shown", "other", "other+shown", "many", "many+shown"]
     acn = ["absent", "empty", "shown", "decoy", "unrelated", "decoy+shown", "shown+decoy", "many", "many+shown"]
     rep.extra["mandatory"] = [f"cell:DF{df}:df={d}:ac={a}" for df in DFS for d in dfn for a in acn] + \
-        ["cell:undecodable:bad-parity", "cell:undecodable:not-decoded", "cell:undecodable:truncated", "path:cli", "path:toml"]
+        ["cell:undecodable:bad-parity", "cell:undecodable:not-decoded", "cell:undecodable:truncated", "path:cli", "path:toml",
+         "system:stdout-records", "system:file==stdout"]
     cmds = build(rng, per_cell)
     for i in range(0, len(cmds), 20000):
         run_cmds(rep, binary, cmds[i:i + 20000])
     rep.extra["matrix_cells"] = [len(DFS) * len(dfn) * len(acn)]
+    # the filters as wired in the executable: command line -> stdout and -o file
+    import os
+    import sysjet
+    work = os.path.join(os.path.dirname(os.path.dirname(os.path.dirname(binary))), "tmp", f"sys11_{shard}")
+    for _ in range(1 if tier == "quick" else 6):
+        sysjet.c11_scenario(rep, binary, work, rng, rand_frame)
+    rep.assumptions.append("system level: jet1090 --df-filter/--aircraft-filter -o FILE -v over a loopback Beast feed; every record on stdout must "
+                           "satisfy the predicate on its own displayed fields and the file must hold the same records; absences are not judged")
     return rep.to_dict()
 
 
